@@ -58,6 +58,7 @@ class Gen:
         self.tag = 0
         self.tagtext = {}
         self.feats = set()
+        self.clean = True
         self.modelled = True
 
     # ------------------------------------------------------------------ expressions
@@ -177,6 +178,7 @@ class Gen:
     def section(self, arr, allow_bad=True):
         """a section of extent N of `arr`: (text, (lo,hi,st)) with None for omitted parts"""
         r, N = self.r, self.N
+        allow_bad = allow_bad and not self.clean
         if arr.extent == N:
             x = r.random()
             if x < 0.62:
@@ -221,7 +223,8 @@ class Gen:
             c = r.randint(arr.lo, arr.hi)
             return f"{arr.name}({lit_text(c, INT)})", ["scal", ["idx1", self.id(arr.name), lit_ast(c)]]
         if x < 0.43:
-            arr = r.choice(self.arrs_of(typ))
+            # in a `clean` WHERE reductions only read the big arrays, which a lowered WHERE never assigns
+            arr = r.choice(self.arrs_of(typ, fam=2) if self.clean else self.arrs_of(typ))
             if r.random() < 0.12:
                 self.feats.add("sumdim")
                 return f"sum({arr.name}, dim=1)", ["sumdim", self.id(arr.name)]
@@ -292,6 +295,7 @@ class Gen:
         tag = self.tag
         typ = REAL if (self.realfam and r.random() < 0.4) else INT
         self.feats.add("where")
+        self.clean = r.random() < 0.8
         mt, ma = self.mask(typ)
         nbody = r.choice([1, 1, 2, 3])
         body = [self.wassign(typ) for _ in range(nbody)]
@@ -321,6 +325,7 @@ class Gen:
 
     def arrassign(self, ind):
         self.tag += 1
+        self.clean = self.r.random() < 0.5
         typ = REAL if (self.realfam and self.r.random() < 0.4) else INT
         wt, wa = self.wassign(typ)
         self.feats.add("array-assign")
